@@ -106,6 +106,18 @@ class Hasher(Pickler):
             else:
                 cls = obj.__self__.__class__
                 obj = _MyHash(func_name, inst, cls)
+        elif isinstance(obj, (set, frozenset)) and type(obj) not in (
+            set,
+            frozenset,
+        ):
+            # Subclasses of set and frozenset are not found in the dispatch
+            # table: the Pickler would save their items in iteration order,
+            # which depends on PYTHONHASHSEED and on the insertion order.
+            if isinstance(obj, frozenset):
+                items = _ConsistentFrozenSet(obj)
+            else:
+                items = _ConsistentSet(obj)
+            obj = _MyHash(type(obj), items, getattr(obj, "__dict__", None))
         Pickler.save(self, obj)
 
     def memoize(self, obj):
